@@ -217,6 +217,73 @@ Proof.
   - apply Permutation_app_head. apply Permutation_app_tail. apply Permutation_flat_map. assumption.
 Qed.
 
+(* ------------------------------------------------------------------ lines written through untouched *)
+(* Scan writes every line whose first byte is neither '%' nor 'Z' (and that is not empty or a comment)
+   exactly as it read it: no byte is added or removed, in particular no white space at either end *)
+Lemma pre_line_exact : forall l, is_ignored l = false -> nth 0 l 0 <> 37 -> nth 0 l 0 <> 90 ->
+  pre_line o pserial l = Ok ([l], []).
+Proof.
+  intros l Ig N37 N90. unfold pre_line. rewrite Ig.
+  destruct (N.eqb_spec (nth 0 l 0) 37); [contradiction|].
+  destruct (N.eqb_spec (nth 0 l 0) 90); [contradiction|]. reflexivity.
+Qed.
+
+(* the guard widened by such lines: besides line_ok, any written-through line that the compiler - whose
+   reader strips leading blanks and nothing else - skips or accepts without feeding the accumulator.
+   This covers lines that begin with blanks (not % lines: those would reach the compiler's accumulator
+   but not the preprocessor's), white-space lines shorter than two bytes once the blanks are gone, and
+   any white space at the END of a line, which belongs to the last field. *)
+Definition line_ok_ws (l : bytes) : Prop :=
+  line_ok l \/
+  (is_ignored l = false /\ nth 0 l 0 <> 37 /\ nth 0 l 0 <> 90 /\
+   exists k, compile_line o v2 serial l = Ok (k, [])).
+Definition wf_file_ws (f : list bytes) : Prop := Forall line_ok_ws f.
+
+Lemma line_step_ws : forall l, line_ok_ws l ->
+  exists k n b, compile_line o v2 serial l = Ok (k, n) /\ pre_line o pserial l = Ok (b, n) /\
+                compile_go o v2 serial b = Ok (k, []).
+Proof.
+  intros l [H|(Ig & N37 & N90 & k & C)]; [apply line_step; assumption|].
+  exists k, [], [l]. split; [assumption|]. split; [apply pre_line_exact; assumption|].
+  apply compile_go_single. assumption.
+Qed.
+
+Lemma file_steps_ws : forall f, wf_file_ws f ->
+  exists K N B, compile_go o v2 serial f = Ok (K, N) /\ pre_go o pserial f = Ok (B, N) /\
+                compile_go o v2 serial B = Ok (K, []).
+Proof.
+  induction 1 as [|l f Hl Hf IH].
+  - exists [], [], []. repeat split; reflexivity.
+  - destruct IH as (K & N & B & C1 & P1 & C2).
+    destruct (line_step_ws l Hl) as (k & n & b & c1 & p1 & c2).
+    exists (k ++ K), (n ++ N), (b ++ B). cbn [compile_go pre_go]. rewrite c1, p1, C1, P1. cbn [rbind fst snd].
+    repeat split; try reflexivity.
+    rewrite (compile_go_app b B k [] K [] c2 C2). reflexivity.
+Qed.
+
+Theorem preproc_same_db_ws : forall f, wf_file_ws f ->
+  exists body nets kvs,
+    pre_go o pserial f = Ok (body, nets) /\
+    preprocess o rearrange pserial f = Ok (body ++ map (marshal o) (rearrange nets)) /\
+    compile o rearrange v2 serial f = Ok kvs /\
+    forall pts, Permutation pts (rearrange nets) ->
+      exists kvs', compile o rearrange v2 serial (body ++ map (marshal o) pts) = Ok kvs' /\
+                   Permutation kvs' kvs.
+Proof.
+  intros f Wf. destruct (file_steps_ws f Wf) as (K & N & B & C1 & P1 & C2).
+  exists B, N, (K ++ flat_map (convert v2 true) (rearrange N) ++ [feature_kv v2]).
+  split; [assumption|]. split; [unfold preprocess; rewrite P1; reflexivity|].
+  split; [unfold compile; rewrite C1; reflexivity|].
+  intros pts Pm.
+  assert (Hp : forall r, In r pts ->
+            (exists lmap ip ml null locid, r = RRangePoint lmap ip ml null locid) /\ wf_recordb o r = true).
+  { intros r Hr. apply (Hre_rp N). eapply Permutation_in; eassumption. }
+  exists (K ++ flat_map (convert v2 true) pts ++ [feature_kv v2]). split.
+  - unfold compile. rewrite (compile_go_app B (map (marshal o) pts) K [] _ [] C2 (compile_points pts Hp)).
+    cbn [rbind fst snd app]. rewrite Hre_nil. cbn [flat_map app]. rewrite <- app_assoc. reflexivity.
+  - apply Permutation_app_head. apply Permutation_app_tail. apply Permutation_flat_map. assumption.
+Qed.
+
 End Pre.
 
 (* the statement with the library premises first (Properties/C09.v) *)
@@ -239,6 +306,50 @@ Lemma preproc_stmt : forall o,
       exists kvs', compile o rearrange v2 serial (body ++ map (marshal o) pts) = Ok kvs' /\
                    Permutation kvs' kvs.
 Proof. intros o H1 H2 H3 v2 serial pserial rearrange. exact (preproc_same_db o v2 serial pserial rearrange H1 H2 H3). Qed.
+
+Lemma preproc_ws_stmt : forall o,
+  (forall a, wf_bytes a -> length a = 16%nat -> o_parse_ip o (o_print_ip o a) = Some a) ->
+  o_parse_ip o [] = None ->
+  (forall a, contains 44 (o_print_ip o a) = false) ->
+  forall v2 serial pserial rearrange,
+  serial <= max32 ->
+  pserial = serial \/ pserial = 0 ->
+  rearrange [] = [] ->
+  (forall ns r, In r (rearrange ns) ->
+     (exists lmap ip ml null locid, r = RRangePoint lmap ip ml null locid) /\ wf_recordb o r = true) ->
+  forall f, wf_file_ws o v2 serial f ->
+  exists body nets kvs,
+    pre_go o pserial f = Ok (body, nets) /\
+    preprocess o rearrange pserial f = Ok (body ++ map (marshal o) (rearrange nets)) /\
+    compile o rearrange v2 serial f = Ok kvs /\
+    forall pts, Permutation pts (rearrange nets) ->
+      exists kvs', compile o rearrange v2 serial (body ++ map (marshal o) pts) = Ok kvs' /\
+                   Permutation kvs' kvs.
+Proof. intros o H1 H2 H3 v2 serial pserial rearrange. exact (preproc_same_db_ws o v2 serial pserial rearrange H1 H2 H3). Qed.
+
+(* non-vacuity for white space: 'motd.example.org,hello world<blank> (the blank is part of the text),
+   a line of one blank, a line of one TAB, and an indented TXT line ending in a TAB: the file is in the widened
+   guard, the preprocessor writes the four lines byte for byte, both texts compile to the same records,
+   and the first record's data ends with the blank *)
+Definition ws_l1 : bytes :=
+  [39;109;111;116;100;46;101;120;97;109;112;108;101;46;111;114;103;44;104;101;108;108;111;32;119;111;114;108;100;32].
+Definition ws_l4 : bytes := [32;32;39;120;46;101;120;97;109;112;108;101;46;111;114;103;44;97;9].
+Definition ws_file : list bytes := [ws_l1; [32]; [9]; ws_l4].
+
+Lemma ws_file_example :
+  wf_file_ws o_plain false 7 ws_file /\
+  preprocess o_plain (fun _ => []) 7 ws_file = Ok ws_file /\
+  exists k v rest, compile o_plain (fun _ => []) false 7 ws_file = Ok ((k, v) :: rest) /\
+    last v 0 = 32 /\ length rest = 2%nat.
+Proof.
+  split; [|split].
+  - unfold wf_file_ws, ws_file. constructor; [|constructor; [|constructor; [|constructor; [|constructor]]]];
+      right; (split; [reflexivity|]); (split; [cbn; lia|]); (split; [cbn; lia|]); eexists; vm_compute; reflexivity.
+  - vm_compute. reflexivity.
+  - destruct (compile o_plain (fun _ => []) false 7 ws_file) as [kvs|] eqn:E; [|vm_compute in E; discriminate E].
+    vm_compute in E. inversion E; subst kvs. clear E.
+    do 3 eexists. split; [reflexivity|]. split; reflexivity.
+Qed.
 
 (* ------------------------------------------------------------------ the finding at file level *)
 (* the two-line file of the F12 witness: preprocessing (serial 7) changes the compiled SOA value *)
